@@ -109,7 +109,7 @@ def _span(draw, model, key, base, horizon, want_reject=False, maxlen=4):
 @st.composite
 def history(draw, classes=('DynGraph', 'DynDiGraph'), removal=(True,), kinds=None, max_ops=12,
             min_ops=1, node_kinds=('int', 'str', 'tuple', 'fset', 'mixed'), rejects=None,
-            horizon=10, allow_missing_t=False, bases=None, attrs=True, uni=(3, 6), bulk_e=True, maxlen=4):
+            horizon=10, allow_missing_t=False, bases=None, attrs=True, uni=(3, 6), bulk_e=True, maxlen=4, selfloops=True):
     """Draw a case.  rejects: None = anchors include 'before' (rejections happen naturally),
     False = never generate a span that starts before the latest run."""
     cls = draw(st.sampled_from(classes))
@@ -128,7 +128,7 @@ def history(draw, classes=('DynGraph', 'DynDiGraph'), removal=(True,), kinds=Non
         if kind == 'add':
             ui = draw(st.integers(0, nn - 1))
             vi = draw(st.integers(0, nn - 1))
-            if ui == vi and draw(st.integers(0, 2)):
+            if ui == vi and (not selfloops or draw(st.integers(0, 2))):
                 vi = (vi + 1) % nn
             if ops and draw(st.integers(0, 2)) == 0 and model.orient:
                 # revisit an existing pair, possibly with flipped endpoints
@@ -143,6 +143,8 @@ def history(draw, classes=('DynGraph', 'DynDiGraph'), removal=(True,), kinds=Non
         elif kind == 'add_from':
             k = draw(st.integers(1, 4))
             pairs = [[draw(st.integers(0, nn - 1)), draw(st.integers(0, nn - 1))] for _ in range(k)]
+            if not selfloops:
+                pairs = [[a, b if a != b else (b + 1) % nn] for a, b in pairs]
             key0 = model.key(dn_nodes[pairs[0][0]], dn_nodes[pairs[0][1]])
             t, e = _span(draw, model, key0, base, horizon, want_reject=rejects, maxlen=maxlen)
             if not bulk_e:
@@ -150,7 +152,7 @@ def history(draw, classes=('DynGraph', 'DynDiGraph'), removal=(True,), kinds=Non
             op = ['add_from', pairs, t, e]
         elif kind in ('path', 'star', 'cycle'):
             k = draw(st.integers(2, min(4, nn)))
-            seq = draw(st.lists(st.integers(0, nn - 1), min_size=k, max_size=k))
+            seq = draw(st.lists(st.integers(0, nn - 1), min_size=k, max_size=k, unique=not selfloops))
             form = draw(st.sampled_from(['m', 'f']))
             if cls == 'DynDiGraph' and kind != 'path':
                 form = 'f'
@@ -198,7 +200,10 @@ def history(draw, classes=('DynGraph', 'DynDiGraph'), removal=(True,), kinds=Non
             # the reverse of an existing arc/pair, positioned relative to the *forward* timeline
             keys = model.keys()
             if not keys:
-                op = ['add', draw(st.integers(0, nn - 1)), draw(st.integers(0, nn - 1)), base + draw(st.integers(0, horizon)), None]
+                a_, b_ = draw(st.integers(0, nn - 1)), draw(st.integers(0, nn - 1))
+                if a_ == b_ and not selfloops:
+                    b_ = (b_ + 1) % nn
+                op = ['add', a_, b_, base + draw(st.integers(0, horizon)), None]
             else:
                 u, v = model.ends(keys[draw(st.integers(0, len(keys) - 1))])
                 ui, vi = dn_nodes.index(v), dn_nodes.index(u)
